@@ -1,6 +1,14 @@
 (* Entry point for the extracted executable: decodes cases, runs the model. *)
 From CV Require Import Base.Bytes Base.Glob Supp.Defs.
+From CV Require Path.Defs.
 Local Open Scope N_scope.
+
+(* PathMatch::match(pattern, path) with the default base path: C31's model (Path/Defs.v),
+   proved equal to the documented rules there *)
+Definition pm_run (pattern path : str) : bool := CV.Path.Defs.pm_model pattern path.
+
+(* SuppressionList::ErrorMessage::setFileName / FileWithDetails::spath: Path::simplifyPath *)
+Definition simp (p : str) : str := CV.Path.Defs.simplify_path p.
 
 Definition stype_of (s : str) : stype :=
   match N_of_dec s with
@@ -44,7 +52,7 @@ Definition take_emsg (l : list str) : option (emsg * list str) :=
   match l with
   | hash :: id :: file :: line :: syms :: r =>
       match take_list take_str r with
-      | Some (macros, r') => Some (mkEmsg (nd hash) id file (zd line) syms macros, r')
+      | Some (macros, r') => Some (mkEmsg (nd hash) id (simp file) (zd line) syms macros, r')
       | None => None
       end
   | _ => None
@@ -63,10 +71,6 @@ Definition take_emsg_t (l : list str) : option ((emsg * str) * list str) :=
   | Some (e, t :: r) => Some ((e, t), r)
   | _ => None
   end.
-
-(* plain file names only (no separators / wildcards): PathMatch::match is equality there;
-   the general matcher is C31's model *)
-Definition pm_plain (pattern path : str) : bool := str_eqb pattern path.
 
 Definition flags_out (l : list supp) : list str :=
   flat_map (fun s => [str_of_bool (s_matched s); str_of_bool (s_checked s)]) l.
@@ -97,7 +101,7 @@ Definition run (fields : list str) : list str :=
       else if tag_is tag [105;115;115;117;112] then
         match take_supp args with
         | Some (s, r) => match take_emsg r with
-                         | Some (e, _) => res_out (is_suppressed pm_plain s e)
+                         | Some (e, _) => res_out (is_suppressed pm_run s e)
                          | None => BAD
                          end
         | None => BAD
@@ -107,7 +111,7 @@ Definition run (fields : list str) : list str :=
         | Some (l, r) =>
             match take_list take_emsg_g r with
             | Some (es, _) =>
-                match list_run pm_plain l es with
+                match list_run pm_run l es with
                 | Some (l', bs) => map str_of_bool bs ++ flags_out l'
                 | None => FUEL
                 end
@@ -124,7 +128,7 @@ Definition run (fields : list str) : list str :=
                 | Some (nofail, r2) =>
                     match take_list take_emsg_t r2 with
                     | Some (ms, _) =>
-                        match logger_run pm_plain (bool_of_str g) (mkL nomsg nofail [] false) ms with
+                        match logger_run pm_run (bool_of_str g) (mkL nomsg nofail [] false) ms with
                         | Some (st, bs) =>
                             map str_of_bool bs ++ [str_of_bool (l_exit st)]
                                 ++ flags_out (l_nomsg st) ++ flags_out (l_nofail st)
@@ -142,7 +146,7 @@ Definition run (fields : list str) : list str :=
         (* file, supp -> local global inline *)
         match args with
         | file :: r => match take_supp r with
-                       | Some (s, _) => [str_of_bool (unmatched_local pm_plain file s);
+                       | Some (s, _) => [str_of_bool (unmatched_local pm_run (simp file) s);
                                          str_of_bool (unmatched_global s);
                                          str_of_bool (unmatched_inline s)]
                        | None => BAD
